@@ -66,7 +66,7 @@ GROUPS["g2"] = [
     E("c13-push-front", ["C13"], "harper-core/src/lib.rs",
       "            remove_indices.push_back(i);",
       "            remove_indices.push_front(i);",
-      "R-C13-sorted:remove_overlaps:queue"),
+      ["R-C13-sorted:remove_overlaps:queue", "R-C13-sweep:anchor-missing:sweep-sites"]),
     E("c16-ignore-plain-parser", ["C16"], "harper-wasm/src/lib.rs",
       "            source.into(),\n            &lint.language.create_parser(),",
       "            source.into(),\n            &Language::Plain.create_parser(),",
